@@ -485,7 +485,7 @@ def run_into(rep, tier, only=None, include_raise=True):
     if not include_raise and n.startswith('ob_run_released_on_raise'): return False
     if only is not None and not only(n): return False
     return o in n if o and o != 'seq' else True
-  return xh.run_module(rep, gen(tier), 'c20seq_h', 150 if tier == 'quick' else 1200, classify=classify, only=sel)
+  return xh.run_module(rep, gen(tier), 'c20seq_h', 300 if tier == 'quick' else 1800, classify=classify, only=sel)
 
 
 def replay(data):
